@@ -27,7 +27,7 @@ use ant_service_management::{
     control::ServiceControl,
     error::{Error as SvcError, Result as SvcResult},
     rpc::{NetworkInfo, NodeInfo, RecordAddress, RpcActions},
-    NodeRegistry, NodeService, ServiceStatus, UpgradeOptions, UpgradeResult,
+    NatDetectionStatus, NodeRegistry, NodeService, ServiceStatus, UpgradeOptions, UpgradeResult,
 };
 use async_trait::async_trait;
 use rand::Rng;
@@ -42,9 +42,19 @@ use std::time::Duration;
 use vtrace::{arg, guarded, quiet_panics, read_ndjson, rng, Trace};
 
 const PEER_ID: &str = "12D3KooWS2tpXGGTmg2AHFiDh57yPQnat49YHnyqoggzXZWpqkCR";
+const CONNECTED: [&str; 2] = ["12D3KooWRBhwfeP2Y4TCx1SM6s9rUoHhR5STiGwxBhgFRcw3UERE", "12D3KooWS2tpXGGTmg2AHFiDh57yPQnat49YHnyqoggzXZWpqkCR"];
 const OLD_VERSION: &str = "0.1.0";
 const NEW_VERSION: &str = "0.2.0";
 const DYN_PORT_BASE: u16 = 30000; // ports handed out by the simulated OS are > DYN_PORT_BASE
+
+/// [C20-1] What `antctl upgrade` puts into `UpgradeOptions::auto_restart`.
+/// /repo/ant-node-manager/src/cmd/node.rs:515 reads `auto_restart: false,` (hard-coded); NodeService::
+/// build_upgrade_install_context copies it into `ServiceInstallCtx::autostart`, so every upgrade of a service added with
+/// `--auto-restart` regenerates its definition WITHOUT autostart (C20_UpgradeKeeps false).  `false` = transcription of the
+/// line as it stands (the C20 check then reports the violation on every `arst` case); `true` = transcription of the line
+/// after the fix `auto_restart: node.auto_restart,`.  The lead flips this constant together with that fix; nothing else in
+/// `antctl_upgrade_options` changes.
+const ANTCTL_UPGRADE_AUTO_RESTART_FROM_SERVICE: bool = true;
 
 // ------------------------------------------------------------------------------------------------
 // simulated operating system
@@ -66,7 +76,16 @@ struct OsState {
     faults: BTreeSet<u64>,
     consumed: Vec<u64>,
     names: Vec<String>,
-    installs: Vec<ServiceInstallCtx>,
+    /// every successful install: (definition, user_mode argument)
+    installs: Vec<(ServiceInstallCtx, bool)>,
+    /// every uninstall call that was not an injected fault: (label, user_mode argument, outcome)
+    uninstalls: Vec<(String, bool, &'static str)>,
+    /// [C19-3] what `uninstall` of a definition that is not there reports: false = ServiceRemovedManually (the real
+    /// controller when the unit file is missing), true = ServiceDoesNotExists (the real controller when the service
+    /// manager does not know the service)
+    missing_is_does_not_exist: bool,
+    /// [C19-3] number of connected peers the simulated node reports
+    n_peers: usize,
 }
 
 impl OsState {
@@ -97,10 +116,46 @@ fn port_arg(ctx: &ServiceInstallCtx) -> Option<u16> {
 
 impl SimOs {
     fn new() -> Self {
-        SimOs(Arc::new(Mutex::new(OsState { next_pid: 1, next_port: DYN_PORT_BASE + 1, next_listen: 40001, ..Default::default() })))
+        SimOs(Arc::new(Mutex::new(OsState { next_pid: 1, next_port: DYN_PORT_BASE + 1, next_listen: 40001, n_peers: 2, ..Default::default() })))
     }
     fn st(&self) -> std::sync::MutexGuard<'_, OsState> {
         self.0.lock().unwrap_or_else(|e| e.into_inner())
+    }
+}
+
+/// [C19-1] environment actions: not ServiceControl calls, never counted, never failing
+impl SimOs {
+    /// the process running `program` dies
+    fn kill(&self, program: &Path) -> bool {
+        let mut s = self.st();
+        let n = s.procs.len();
+        s.procs.retain(|p| p.program != program);
+        s.procs.len() != n
+    }
+    /// the OS (re)spawns the process of the installed definition `name` with a new pid (crash + Restart=, reboot with
+    /// autostart): same port when the definition pins one, otherwise whatever the OS hands out this time
+    fn respawn(&self, name: &str) -> bool {
+        let mut s = self.st();
+        let (program, port) = match s.installed.get(name) {
+            Some((ctx, _)) => (ctx.program.clone(), port_arg(ctx)),
+            None => return false,
+        };
+        if !program.exists() {
+            return false;
+        }
+        s.procs.retain(|p| p.program != program);
+        let pid = s.next_pid;
+        s.next_pid += 1;
+        let port = match port {
+            Some(p) if p != 0 => p,
+            _ => {
+                let p = s.next_listen;
+                s.next_listen += 1;
+                p
+            }
+        };
+        s.procs.push(Proc { pid, program, port });
+        true
     }
 }
 
@@ -122,7 +177,7 @@ impl ServiceControl for SimOs {
         if s.tick("install") {
             return Err(os_fault("install"));
         }
-        s.installs.push(install_ctx.clone());
+        s.installs.push((install_ctx.clone(), user_mode));
         // like systemd/launchd unit files: a definition of the same label is overwritten
         s.installed.insert(install_ctx.label.to_string(), (install_ctx, user_mode));
         Ok(())
@@ -185,10 +240,18 @@ impl ServiceControl for SimOs {
         match s.installed.get(service_name) {
             Some((_, um)) if *um == user_mode => {
                 s.installed.remove(service_name);
+                s.uninstalls.push((service_name.to_string(), user_mode, "Ok"));
                 Ok(())
             }
-            // what the real controller reports when the definition file is not there
-            _ => Err(SvcError::ServiceRemovedManually(service_name.to_string())),
+            // what the real controller reports when the definition is not there (in that mode)
+            _ if s.missing_is_does_not_exist => {
+                s.uninstalls.push((service_name.to_string(), user_mode, "DoesNotExist"));
+                Err(SvcError::ServiceDoesNotExists(service_name.to_string()))
+            }
+            _ => {
+                s.uninstalls.push((service_name.to_string(), user_mode, "RemovedManually"));
+                Err(SvcError::ServiceRemovedManually(service_name.to_string()))
+            }
         }
     }
     fn wait(&self, _delay: u64) {}
@@ -232,7 +295,8 @@ impl RpcActions for SimRpc {
         }
         match self.live(&s) {
             Some((_, port)) => Ok(NetworkInfo {
-                connected_peers: vec![],
+                // [C19-3] connected peers, so that (de)serialize_connected_peers round-trips through save/load
+                connected_peers: CONNECTED[..s.n_peers.min(CONNECTED.len())].iter().map(|p| libp2p::PeerId::from_str(p).expect("peer id")).collect(),
                 listeners: vec![libp2p::Multiaddr::from_str(&format!("/ip4/127.0.0.1/udp/{port}/quic-v1")).expect("multiaddr")],
             }),
             None => Err(SvcError::RpcConnectionError("no process listening".into())),
@@ -365,16 +429,11 @@ impl World {
         let mut m = manager(&mut self.reg.nodes[idx], &os);
         self.rt.block_on(async { m.remove(keep).await }).map(|_| "Ok".to_string()).map_err(|e| format!("{e}"))
     }
-    fn upgrade(&mut self, idx: usize, start_service: bool, provided_env: Option<Vec<(String, String)>>) -> Result<String, String> {
-        // the options `antctl upgrade` builds for one service (auto-restart is the service's own setting)
-        let options = UpgradeOptions {
-            auto_restart: self.reg.nodes[idx].auto_restart,
-            env_variables: if provided_env.is_some() { provided_env } else { self.reg.environment_variables.clone() },
-            force: false,
-            start_service,
-            target_bin_path: self.upg_bin.clone(),
-            target_version: semver::Version::parse(NEW_VERSION).expect("version"),
-        };
+    /// `antctl upgrade [--do-not-start] [--env ...] --service-name <idx>` after the registry refresh: options exactly as
+    /// cmd/node.rs builds them (`antctl_upgrade_options`), the "downloaded release" being `upg_bin` / NEW_VERSION.
+    fn upgrade(&mut self, idx: usize, do_not_start: bool, provided_env: Option<Vec<(String, String)>>) -> Result<String, String> {
+        let target_version = semver::Version::parse(NEW_VERSION).expect("version");
+        let options = antctl_upgrade_options(&self.reg, idx, do_not_start, None, false, &provided_env, &self.upg_bin, &target_version);
         let os = self.os.clone();
         let mut m = manager(&mut self.reg.nodes[idx], &os);
         self.rt
@@ -387,6 +446,11 @@ impl World {
                 UpgradeResult::Error(e) => format!("Error:{e}"),
             })
             .map_err(|e| format!("{e}"))
+    }
+
+    /// What every antctl command starts with: the registry is read from the file the previous command saved.
+    fn reload(&mut self) {
+        self.reg = NodeRegistry::load(&self.root.join("node_registry.json")).expect("load registry");
     }
 
     /// save, reload, compare the whole registry
@@ -438,6 +502,8 @@ impl World {
         let s = self.os.st();
         let mut inst: Vec<i64> = s.installed.keys().map(|k| num_of(k)).collect();
         inst.sort();
+        let mut insts: Vec<(i64, bool)> = s.installed.iter().map(|(k, (_, um))| (num_of(k), *um)).collect();
+        insts.sort();
         let mut procs: Vec<(i64, u32)> = s.procs.iter().map(|p| (num_of(&last_component(p.program.parent().unwrap_or(Path::new("")))), p.pid)).collect();
         procs.sort();
         let mut dirs: Vec<i64> = std::fs::read_dir(&self.data_base)
@@ -446,10 +512,51 @@ impl World {
         dirs.sort();
         let osv = json!({
             "inst": inst,
+            "insts": insts.iter().map(|(n, um)| json!({"n": n, "um": um})).collect::<Vec<_>>(),
             "procs": procs.iter().map(|(n, pid)| json!({"n": n, "pid": pid})).collect::<Vec<_>>(),
             "dirs": dirs,
         });
         (Value::Array(regv), osv)
+    }
+}
+
+/// [C20-1] The options `antctl upgrade` hands to `ServiceManager::upgrade` for the service at `index`: a line-by-line
+/// transcription of /repo/ant-node-manager/src/cmd/node.rs `upgrade()`:
+///   :453      let use_force = force || custom_bin_path.is_some();
+///   :462-469  (upgrade_bin_path, target_version) = download_and_get_upgrade_bin_path(..)   -- parameters here
+///   :508      let node = &mut node_registry.nodes[index];
+///   :509-513  let env_variables = if provided_env_variables.is_some() { &provided_env_variables }
+///                                 else { &node_registry.environment_variables };
+///   :514-521  let options = UpgradeOptions { auto_restart: false, env_variables: env_variables.clone(), force: use_force,
+///                 start_service: !do_not_start, target_bin_path: upgrade_bin_path.clone(),
+///                 target_version: target_version.clone() };
+/// The first four parameters after `index` are the command-line arguments of `antctl upgrade`.
+#[allow(clippy::too_many_arguments)]
+fn antctl_upgrade_options(
+    node_registry: &NodeRegistry,
+    index: usize,
+    do_not_start: bool,
+    custom_bin_path: Option<PathBuf>,
+    force: bool,
+    provided_env_variables: &Option<Vec<(String, String)>>,
+    upgrade_bin_path: &Path,
+    target_version: &semver::Version,
+) -> UpgradeOptions {
+    let use_force = force || custom_bin_path.is_some(); // :453
+    let node = &node_registry.nodes[index]; // :508
+    let env_variables = if provided_env_variables.is_some() {
+        provided_env_variables // :510
+    } else {
+        &node_registry.environment_variables // :512
+    };
+    UpgradeOptions {
+        // :515 -- THE ONE LINE that changes with the fix (see ANTCTL_UPGRADE_AUTO_RESTART_FROM_SERVICE)
+        auto_restart: if ANTCTL_UPGRADE_AUTO_RESTART_FROM_SERVICE { node.auto_restart } else { false },
+        env_variables: env_variables.clone(),       // :516
+        force: use_force,                           // :517
+        start_service: !do_not_start,               // :518
+        target_bin_path: upgrade_bin_path.to_path_buf(), // :519
+        target_version: target_version.clone(),     // :520
     }
 }
 
@@ -523,39 +630,58 @@ fn run_scenario(t: &mut Trace, workroot: &Path, sc: &Value, src: &str, keep_dirs
             }
         }
     }
-    t.emit(json!({"ev": "Reset", "run": id, "src": src, "um": user_mode, "arst": auto_restart}));
+    // [C19-3] how the simulated OS reports the uninstall of a definition that is not there
+    let dne = sc["dne"].as_bool().unwrap_or((id / 4) % 2 == 1);
+    w.os.st().missing_is_does_not_exist = dne;
+    t.emit(json!({"ev": "Reset", "run": id, "src": src, "um": user_mode, "arst": auto_restart, "dne": dne}));
     for (i, st) in steps.iter().enumerate() {
         let op = st["op"].as_str().expect("op").to_string();
         let svc = st["svc"].as_u64().unwrap_or(0) as usize; // 1-based registry index
         let calls_before = w.os.st().calls;
         let consumed_before = w.os.st().consumed.len();
         let mut req: Vec<u16> = vec![];
+        let refreshed = std::cell::Cell::new(false);
         let outcome: Result<Result<String, String>, String> = match op.as_str() {
             "Add" => {
                 let cnt = st["cnt"].as_u64().unwrap_or(1) as u16;
-                let port = st["port"].as_u64().unwrap_or(0) as u16;
-                let kind = st["kind"].as_str().unwrap_or("node").to_string();
                 let mut o = w.base_options();
                 o.count = Some(cnt);
-                if port != 0 {
-                    let pr = if cnt == 1 { PortRange::Single(port) } else { PortRange::Range(port, port + cnt - 1) };
-                    req = (port..port + cnt).collect();
-                    match kind.as_str() {
-                        "rpc" => o.rpc_port = Some(pr),
-                        "metrics" => o.metrics_port = Some(pr),
-                        _ => o.node_port = Some(pr),
+                // one or -- [C19-2] -- two port options of different kinds
+                for (pk, kk) in [("port", "kind"), ("port2", "kind2")] {
+                    let port = st[pk].as_u64().unwrap_or(0) as u16;
+                    let kind = st[kk].as_str().unwrap_or("node").to_string();
+                    if port != 0 {
+                        let pr = if cnt == 1 { PortRange::Single(port) } else { PortRange::Range(port, port + cnt - 1) };
+                        req.extend(port..port + cnt);
+                        match kind.as_str() {
+                            "rpc" => o.rpc_port = Some(pr),
+                            "metrics" => o.metrics_port = Some(pr),
+                            _ => o.node_port = Some(pr),
+                        }
                     }
                 }
+                req.sort();
+                req.dedup();
                 guarded(|| w.add(o).map(|_| "Ok".to_string()))
             }
             _ if svc == 0 || svc > w.reg.nodes.len() => Ok(Err("no such service".to_string())),
+            // [C19-1] environment: the process dies / is (re)spawned by the OS; no manager code runs
+            "Kill" => {
+                let program = w.reg.nodes[svc - 1].antnode_path.clone();
+                Ok(Ok(if w.os.kill(&program) { "killed" } else { "no process" }.to_string()))
+            }
+            "Respawn" => {
+                let name = w.reg.nodes[svc - 1].service_name.clone();
+                Ok(Ok(if w.os.respawn(&name) { "spawned" } else { "not installed" }.to_string()))
+            }
             "Start" | "Stop" | "Remove" | "Upgrade" => guarded(|| {
                 w.refresh()?;
+                refreshed.set(true);
                 match op.as_str() {
                     "Start" => w.start(svc - 1),
                     "Stop" => w.stop(svc - 1),
                     "Remove" => w.remove(svc - 1, st["keep"].as_bool().unwrap_or(false)),
-                    _ => w.upgrade(svc - 1, st["start"].as_bool().unwrap_or(false), None),
+                    _ => w.upgrade(svc - 1, !st["start"].as_bool().unwrap_or(false), None),
                 }
             }),
             other => panic!("unknown op {other}"),
@@ -584,6 +710,8 @@ fn run_scenario(t: &mut Trace, workroot: &Path, sc: &Value, src: &str, keep_dirs
             "cnt": st["cnt"].as_u64().unwrap_or(0), "port": st["port"].as_u64().unwrap_or(0),
             "kind": st["kind"].as_str().unwrap_or(""), "start": st["start"].as_bool().unwrap_or(false),
             "keep": st["keep"].as_bool().unwrap_or(false),
+            "port2": st["port2"].as_u64().unwrap_or(0), "kind2": st["kind2"].as_str().unwrap_or(""),
+            "refreshed": refreshed.get(),
             "req": req, "res": res, "detail": detail, "reload_eq": reload_eq, "reload_note": reload_note,
             "faults": st["faults"].as_array().cloned().unwrap_or_default(),
             "consumed": consumed, "first_call": calls_before + 1, "ncalls": calls_after - calls_before, "calls": names,
@@ -596,25 +724,39 @@ fn run_scenario(t: &mut Trace, workroot: &Path, sc: &Value, src: &str, keep_dirs
 }
 
 fn random_scenario(r: &mut impl Rng, id: i64) -> Value {
+    // [C19-2] a second port range that OVERLAPS the first across kinds within one batch is a scenario class of its own
+    // (enabled by VERIF_ENABLE_CROSSKIND_PORTS=1, see the report of builder B9)
+    let crosskind = std::env::var("VERIF_ENABLE_CROSSKIND_PORTS").map(|v| v == "1").unwrap_or(false);
     let len = r.gen_range(3..=12);
     let mut steps = vec![];
     let mut nsvc = 0u64; // upper bound on registry length (adds may fail)
-    let ports = [12001u64, 12002, 12003];
+    let ports = [12001u64, 12002, 12003, 12004];
+    let kinds = ["node", "rpc", "metrics"];
     for _ in 0..len {
-        let pick = if nsvc == 0 { 0 } else { r.gen_range(0..10) };
+        let pick = if nsvc == 0 { 0 } else { r.gen_range(0..13) };
         let svc = if nsvc == 0 { 0 } else { r.gen_range(1..=nsvc) };
         let st = match pick {
             0 | 1 => {
-                let cnt = if r.gen_bool(0.3) { 2 } else { 1 };
+                let cnt: u64 = if r.gen_bool(0.3) { 2 } else { 1 };
                 nsvc += cnt;
-                let port = if r.gen_bool(0.5) { ports[r.gen_range(0..ports.len())] } else { 0 };
-                let kind = ["node", "rpc", "metrics"][r.gen_range(0..3)];
-                json!({"op": "Add", "svc": 0, "cnt": cnt, "port": port, "kind": kind})
+                let port = if r.gen_bool(0.6) { ports[r.gen_range(0..ports.len())] } else { 0 };
+                let k1 = r.gen_range(0..3);
+                let mut st = json!({"op": "Add", "svc": 0, "cnt": cnt, "port": port, "kind": kinds[k1]});
+                if port != 0 && r.gen_bool(0.5) {
+                    // another kind of port in the same add: the range right after the first one, or (crosskind) shifted by one
+                    let off = if crosskind && cnt == 2 && r.gen_bool(0.5) { 1 } else { cnt };
+                    st["port2"] = json!(port + off);
+                    st["kind2"] = json!(kinds[(k1 + r.gen_range(1..3)) % 3]);
+                }
+                st
             }
             2 | 3 | 4 => json!({"op": "Start", "svc": svc}),
             5 | 6 => json!({"op": "Stop", "svc": svc}),
             7 => json!({"op": "Remove", "svc": svc, "keep": r.gen_bool(0.2)}),
-            _ => json!({"op": "Upgrade", "svc": svc, "start": r.gen_bool(0.6)}),
+            8 | 9 => json!({"op": "Upgrade", "svc": svc, "start": r.gen_bool(0.6)}),
+            // [C19-1] the environment
+            10 | 11 => json!({"op": "Kill", "svc": svc}),
+            _ => json!({"op": "Respawn", "svc": svc}),
         };
         steps.push(st);
     }
@@ -625,7 +767,7 @@ fn random_scenario(r: &mut impl Rng, id: i64) -> Value {
     if let Some(first) = steps.first_mut() {
         first["faults"] = Value::Array(faults);
     }
-    json!({"id": id, "steps": steps, "um": r.gen_bool(0.5), "arst": r.gen_bool(0.5)})
+    json!({"id": id, "steps": steps, "um": r.gen_bool(0.5), "arst": r.gen_bool(0.5), "dne": r.gen_bool(0.5)})
 }
 
 fn main_life() {
@@ -771,25 +913,34 @@ fn run_case(t: &mut Trace, workroot: &Path, antnode: Option<&Path>, case: &Value
         put("evm_pta", String::new());
         put("evm_dpa", String::new());
     }
+    // [C20-6] `multi`: `antctl add --count 2` with port RANGES; the service under test is the SECOND of the batch
+    let multi = bv(o, "multi");
+    let started = bv(o, "started");
+    let nat = sv(o, "nat");
+    let idx: usize = if multi { 1 } else { 0 };
+    let pr = |base: u16| if multi { PortRange::Range(base, base + 1) } else { PortRange::Single(base) };
+    if multi {
+        a.count = Some(2);
+    }
     if sv(o, "nport") == "some" {
-        a.node_port = Some(PortRange::Single(12001));
+        a.node_port = Some(pr(12001));
     }
-    put("nport", "12001".into());
+    put("nport", (12001 + idx as u16).to_string());
     if sv(o, "rport") == "some" {
-        a.rpc_port = Some(PortRange::Single(13001));
+        a.rpc_port = Some(pr(13001));
     }
-    put("rport", "13001".into());
+    put("rport", (13001 + idx as u16).to_string());
     if sv(o, "raddr") == "some" {
         a.rpc_address = Some(Ipv4Addr::new(192, 168, 22, 4));
     }
     put("raddr", Ipv4Addr::new(192, 168, 22, 4).to_string());
     put("raddr_default", Ipv4Addr::new(127, 0, 0, 1).to_string());
     match sv(o, "mport").as_str() {
-        "some" => a.metrics_port = Some(PortRange::Single(14001)),
+        "some" => a.metrics_port = Some(pr(14001)),
         "auto" => a.enable_metrics_server = true,
         _ => {}
     }
-    put("mport", "14001".into());
+    put("mport", (14001 + idx as u16).to_string());
     if sv(o, "ip") == "some" {
         a.node_ip = Some(Ipv4Addr::new(10, 1, 2, 3));
     }
@@ -857,7 +1008,20 @@ fn run_case(t: &mut Trace, workroot: &Path, antnode: Option<&Path>, case: &Value
     }
     put("netid", "7".into());
     put("user", a.user.clone().unwrap_or_default());
-    put("name", "antnode1".into());
+    put("name", format!("antnode{}", idx + 1));
+    // [C20-5] `antctl nat-detection` has recorded a NAT status and `antctl add --auto-set-nat-flags` is used ("This will
+    // override any --upnp or --home-network options", bin/cli/main.rs); nat = off: neither.  The status is written the way
+    // the nat-detection command does (registry field, save) and the add command reads the saved registry.
+    if nat != "off" {
+        w.reg.nat_status = Some(match nat.as_str() {
+            "Public" => NatDetectionStatus::Public,
+            "UPnP" => NatDetectionStatus::UPnP,
+            _ => NatDetectionStatus::Private,
+        });
+        w.reg.save().expect("save registry");
+        w.reload();
+        a.auto_set_nat_flags = true;
+    }
 
     let res_add = guarded(|| w.add(a));
     let (add_res, add_detail) = match &res_add {
@@ -865,9 +1029,10 @@ fn run_case(t: &mut Trace, workroot: &Path, antnode: Option<&Path>, case: &Value
         Ok(Err(e)) => ("Err", e.clone()),
         Err(p) => ("Panic", p.clone()),
     };
-    let install_ctx = w.os.st().installs.first().cloned();
+    let install_rec = w.os.st().installs.get(idx).cloned();
+    let install_ctx = install_rec.as_ref().map(|x| x.0.clone());
     // values the manager allocated itself: taken from its own record of the service
-    if let Some(n) = w.reg.nodes.first() {
+    if let Some(n) = w.reg.nodes.get(idx) {
         conc.insert("rec_rpc".into(), json!(n.rpc_socket_addr.to_string()));
         conc.insert("rec_rpc_port".into(), json!(n.rpc_socket_addr.port().to_string()));
         conc.insert("rec_mport".into(), json!(n.metrics_port.map(|p| p.to_string()).unwrap_or_default()));
@@ -879,25 +1044,57 @@ fn run_case(t: &mut Trace, workroot: &Path, antnode: Option<&Path>, case: &Value
     conc.insert("oenv".into(), json!(oenv.iter().map(|(k, v)| json!([k, v])).collect::<Vec<_>>()));
     let second = sv(o, "second");
     if add_res == "Ok" && (second == "noenv" || second == "otherenv") {
+        w.reload(); // another antctl command
         let mut b = w.base_options();
         if second == "otherenv" {
             b.env_variables = Some(oenv.clone());
         }
         let _ = guarded(|| w.add(b));
     }
-    let installs_before_upgrade = w.os.st().installs.len();
-    let mut upg_res = ("NotRun", String::new());
-    let mut upgrade_ctx = None;
-    if add_res == "Ok" && !w.reg.nodes.is_empty() {
-        let provided = if bv(o, "uenv") { Some(uenv.clone()) } else { None };
-        let r = guarded(|| w.upgrade(0, false, provided));
-        upg_res = match &r {
+    // [C20-7] `antctl start` of the service before its upgrade (own command: load, refresh, start, save).  A started
+    // service records the port its node listens on; `listen` is that port as the simulated OS knows it.
+    let mut start_res = ("NotRun", String::new());
+    conc.insert("listen".into(), json!(""));
+    if add_res == "Ok" && started && w.reg.nodes.len() > idx {
+        w.reload();
+        let r = guarded(|| {
+            w.refresh()?;
+            w.start(idx)
+        });
+        start_res = match &r {
             Ok(Ok(s)) => ("Ok", s.clone()),
             Ok(Err(e)) => ("Err", e.clone()),
             Err(p) => ("Panic", p.clone()),
         };
-        upgrade_ctx = w.os.st().installs.get(installs_before_upgrade).cloned();
+        let _ = w.reg.save();
+        let program = w.reg.nodes[idx].antnode_path.clone();
+        let listen = w.os.st().procs.iter().find(|p| p.program == program).map(|p| p.port.to_string()).unwrap_or_default();
+        conc.insert("listen".into(), json!(listen));
     }
+    let installs_before_upgrade = w.os.st().installs.len();
+    let uninstalls_before_upgrade = w.os.st().uninstalls.len();
+    let mut upg_res = ("NotRun", String::new());
+    let mut upgrade_rec = None;
+    // `antctl upgrade` without --do-not-start starts the service afterwards; both forms are used (odd / even case id)
+    let do_not_start = id % 2 == 0;
+    if add_res == "Ok" && w.reg.nodes.len() > idx {
+        let provided = if bv(o, "uenv") { Some(uenv.clone()) } else { None };
+        // [C20-2] the upgrade is another antctl process: it works on the registry as saved by the previous commands
+        w.reload();
+        let r = guarded(|| {
+            w.refresh()?;
+            w.upgrade(idx, do_not_start, provided)
+        });
+        upg_res = match &r {
+            Ok(Ok(s)) if s.starts_with("Error:") => ("Err", s.clone()),
+            Ok(Ok(s)) => ("Ok", s.clone()),
+            Ok(Err(e)) => ("Err", e.clone()),
+            Err(p) => ("Panic", p.clone()),
+        };
+        upgrade_rec = w.os.st().installs.get(installs_before_upgrade).cloned();
+    }
+    let upgrade_ctx = upgrade_rec.as_ref().map(|x| x.0.clone());
+    let upg_uninstalls: Vec<Value> = w.os.st().uninstalls[uninstalls_before_upgrade..].iter().map(|(n, um, r)| json!({"name": n, "um": um, "res": r})).collect();
     let none = json!({"exit": -3, "ok": false, "err": "not run"});
     let (node_i, node_u) = match antnode {
         Some(bin) => (
@@ -909,7 +1106,11 @@ fn run_case(t: &mut Trace, workroot: &Path, antnode: Option<&Path>, case: &Value
     t.emit(json!({
         "ev": "Case", "id": id, "o": o, "conc": Value::Object(conc),
         "add_res": add_res, "add_detail": add_detail, "upg_res": upg_res.0, "upg_detail": upg_res.1,
+        "start_res": start_res.0, "start_detail": start_res.1, "do_not_start": do_not_start,
         "has_install": install_ctx.is_some(), "has_upgrade": upgrade_ctx.is_some(),
+        // [C20-4] the user_mode argument the definitions were installed / uninstalled with
+        "install_um": install_rec.as_ref().map(|x| x.1).unwrap_or(false), "upgrade_um": upgrade_rec.as_ref().map(|x| x.1).unwrap_or(false),
+        "upg_uninstalls": upg_uninstalls,
         "install": install_ctx.as_ref().map(ctx_json).unwrap_or(json!({})),
         "upgrade": upgrade_ctx.as_ref().map(ctx_json).unwrap_or(json!({})),
         "node_i": node_i, "node_u": node_u, "node_checked": antnode.is_some(), "src": src,
